@@ -33,11 +33,26 @@ VARIABLES
     ran,        \* nodes executed since the last commit
     running,    \* nodes whose executor is currently between enter and exit
     tainted,    \* nodes whose next run needs no justification (a run was cut)
+    outLast,    \* node -> output of its last complete run (None if none)
+    outPrev,    \* node -> output of the complete run before that
+    kfTaint,    \* node -> "" or the known finding that explains its stale value
+                \* in this epoch
+    nested,     \* nodes whose current/last run was entered inside another run
+    topDone,    \* Fw/Pj nodes whose value-changing run completed at top level
+                \* since the last user query returned
+    kfHard,     \* node -> "" or the known finding that explains why its *stored*
+                \* result is wrong: its last run consumed a stale value; this
+                \* lasts until the node is re-executed
+    spSeen,     \* projections that were stale-by-KF_PBP at some point of this epoch
+    kfFw,       \* firewalls implicated in a KF_TFC root in this epoch
+    bpSkip,     \* Fw/Pj nodes whose last value change was not followed by
+                \* backward projection propagation (KF_PBP call sites)
     viol,       \* sequence of violation records
     stats       \* counters of what was checked
 
 obsVars == <<prog, inputs, pend, insess, refreshing, world, sample, pendSample,
-             epoch, live, snap, lastRun, ran, running, tainted, viol, stats>>
+             epoch, live, snap, lastRun, ran, running, tainted, outLast, outPrev,
+             kfTaint, nested, topDone, bpSkip, spSeen, kfFw, kfHard, viol, stats>>
 
 N == Len(prog.nodes)
 Ids == 1..N
@@ -64,6 +79,15 @@ InitFor(p) ==
     /\ ran = {}
     /\ running = {}
     /\ tainted = {}
+    /\ outLast = [n \in 1..Len(p.nodes) |-> None]
+    /\ outPrev = [n \in 1..Len(p.nodes) |-> None]
+    /\ kfTaint = [n \in 1..Len(p.nodes) |-> ""]
+    /\ nested = {}
+    /\ topDone = {}
+    /\ bpSkip = {}
+    /\ spSeen = {}
+    /\ kfFw = {}
+    /\ kfHard = [n \in 1..Len(p.nodes) |-> ""]
 
 (* Environment of source nodes under a given input snapshot.               *)
 EnvOf(inp) ==
@@ -75,13 +99,97 @@ EnvOf(inp) ==
 ValNow == Valuation(prog, EnvOf(inputs))
 ValAt(t) == Valuation(prog, EnvOf(snap[t]))
 
-V(idx, kind, n, got, want) ==
-    [at |-> idx, kind |-> kind, n |-> n, got |-> got, want |-> want, ep |-> epoch]
+VK(idx, kind, n, got, want, kf) ==
+    [at |-> idx, kind |-> kind, n |-> n, got |-> got, want |-> want, ep |-> epoch, kf |-> kf]
+V(idx, kind, n, got, want) == VK(idx, kind, n, got, want, "")
+
+(* ---- known-finding signatures (see /verif/known_findings.json) ---------*)
+RECURSIVE Below(_, _)
+Below(frontier, seen) ==
+    LET nxt == (UNION {StaticDeps(prog, x) : x \in frontier}) \ seen
+    IN  IF nxt = {} THEN seen ELSE Below(nxt, seen \cup nxt)
+TransDeps(n) == Below({n}, {})
+
+(* Firewalls that transitive-firewall repair did not bring up to date      *)
+(* before executors started: either still out of date and not re-run in    *)
+(* this epoch, or re-run (with a changed result) lazily from inside        *)
+(* another executor's run.                                                 *)
+PendingFirewalls(val) ==
+    {f \in Ids : /\ prog.nodes[f].kind = "Fw" /\ outLast[f] # None
+                 /\ \/ f \notin ran /\ outLast[f] # val[f]
+                    \/ f \in ran /\ f \in nested /\ outPrev[f] # outLast[f]}
+
+(* KF_TFC: a previously computed node d that was not re-executed in this   *)
+(* epoch is handed, stale, to an *executing* query although a firewall     *)
+(* below it has a pending change: query_for repairs transitive firewall    *)
+(* callees only for user-level callers.                                    *)
+KfTfc(d, val) ==
+    /\ lastRun[d].has /\ d \notin ran
+    /\ TransDeps(d) \cap PendingFirewalls(val) # {}
+
+(* KF_PBP: a firewall/projection d was re-executed with a changed value by *)
+(* a caller that is not a transitive-firewall repair (a direct user query  *)
+(* of d, or a dependency read of an executing query): the pending backward *)
+(* projection is recorded but never honoured (never in a later epoch), so  *)
+(* a projection P that read d keeps its old result and the callers of P    *)
+(* are never invalidated.                                                  *)
+StaleProj(ranS, lastRunS, outLastS, bpSkipS) ==
+    {P \in Ids : /\ prog.nodes[P].kind = "Pj" /\ P \notin ranS /\ lastRunS[P].has
+                 /\ \E i \in 1..Len(lastRunS[P].reads) :
+                       LET d == lastRunS[P].reads[i][1] IN
+                       d \in bpSkipS /\ outLastS[d] # lastRunS[P].reads[i][2]}
+(* spSeen accumulates StaleProj over the epoch (a projection may have been  *)
+(* re-run by the time the stale value of a caller is handed out).           *)
+KfPbp(x) == (TransDeps(x) \cup {x}) \cap spSeen # {}
+
+(* Which known finding, if any, explains a stale value of node d handed to *)
+(* an executing query (dependency read).                                   *)
+Taint(y) == IF kfTaint[y] # "" THEN kfTaint[y] ELSE kfHard[y]
+Inherited(d) ==
+    LET tainted_below == {y \in TransDeps(d) : Taint(y) # ""}
+    IN  \* d was verified against a dependency whose stored value is itself
+        \* explained by a known finding
+        IF tainted_below # {} THEN Taint(CHOOSE y \in tainted_below : TRUE) ELSE ""
+
+(* d was verified unchanged in an operation that met a KF_TFC root below a *)
+(* firewall it also depends on.                                            *)
+KfTfcEpoch(d) == d \notin ran /\ TransDeps(d) \cap kfFw # {}
+
+KfOf(d, val) ==
+    IF Taint(d) # "" THEN Taint(d)
+    ELSE IF KfTfc(d, val) THEN "KF_TFC"
+    ELSE IF KfPbp(d) THEN "KF_PBP"
+    ELSE IF KfTfcEpoch(d) THEN "KF_TFC"
+    ELSE Inherited(d)
+
+(* ... and of a stale value handed to the user.  KF_TFC never applies to a *)
+(* user-level request directly (user-level callers do repair transitive    *)
+(* firewall callees): only through a node tainted earlier in the epoch.    *)
+KfOfUser(d) ==
+    IF Taint(d) # "" THEN Taint(d)
+    ELSE IF KfPbp(d) THEN "KF_PBP"
+    ELSE IF KfTfcEpoch(d) THEN "KF_TFC"
+    ELSE Inherited(d)
+
+(* KF_BP: backward projection propagation re-executes a projection         *)
+(* unconditionally when a firewall/projection it read was re-run in this   *)
+(* epoch with a result different from that callee's own previous run, even *)
+(* if the value equals what the projection saw in its last run (A->B->A).  *)
+KfBp(n) ==
+    /\ prog.nodes[n].kind = "Pj"
+    /\ \E i \in 1..Len(lastRun[n].reads) :
+          LET d == lastRun[n].reads[i][1] IN
+          d \in ran /\ outPrev[d] # outLast[d]
 
 Bump(f) == [stats EXCEPT ![f] = @ + 1]
 
 ---------------------------------------------------------------------------
 (* API-level actions.  `idx` is the position of the event (for reports).   *)
+
+sessVars == <<inputs, pend, insess, refreshing, sample, pendSample, epoch>>
+rdrVars  == <<live, snap>>
+runVars  == <<lastRun, ran, running, tainted, outLast, outPrev>>
+kfVars   == <<kfTaint, nested, topDone, bpSkip, spSeen, kfFw, kfHard>>
 
 Begin(idx) ==
     /\ insess' = TRUE
@@ -90,8 +198,8 @@ Begin(idx) ==
     /\ viol' = IF insess THEN Append(viol, V(idx, "nested_session", 0, 0, 0))
                ELSE IF live # {} THEN Append(viol, V(idx, "session_with_live_reader", 0, 0, 0))
                ELSE viol
-    /\ UNCHANGED <<prog, inputs, refreshing, world, sample, epoch, live, snap,
-                   lastRun, ran, running, tainted, stats>>
+    /\ UNCHANGED <<prog, inputs, refreshing, world, sample, epoch, rdrVars,
+                   runVars, kfVars, stats>>
 
 (* C01: the result of set_input tells whether the stored value changed.    *)
 SetResult(n, v) ==
@@ -106,17 +214,16 @@ Set(idx, n, v, r) ==
                ELSE viol
     /\ stats' = Bump("sets")
     /\ UNCHANGED <<prog, inputs, insess, refreshing, world, sample, pendSample,
-                   epoch, live, snap, lastRun, ran, running, tainted>>
+                   epoch, rdrVars, runVars, kfVars>>
 
 World(idx, n, v) ==
     /\ world' = [world EXCEPT ![n] = v]
-    /\ UNCHANGED <<prog, inputs, pend, insess, refreshing, sample, pendSample,
-                   epoch, live, snap, lastRun, ran, running, tainted, viol, stats>>
+    /\ UNCHANGED <<prog, sessVars, rdrVars, runVars, kfVars, viol, stats>>
 
 RefreshStart(idx) ==
     /\ refreshing' = TRUE
     /\ UNCHANGED <<prog, inputs, pend, insess, world, sample, pendSample, epoch,
-                   live, snap, lastRun, ran, running, tainted, viol, stats>>
+                   rdrVars, runVars, kfVars, viol, stats>>
 
 (* After refresh() returned every external node that had been sampled      *)
 (* before must have been re-sampled (its executor ran during the refresh).  *)
@@ -128,7 +235,7 @@ Refresh(idx) ==
                   THEN Append(viol, V(idx, "refresh_skipped_external", CHOOSE n \in missed : TRUE, 0, 0))
                   ELSE viol
     /\ UNCHANGED <<prog, inputs, pend, insess, world, sample, pendSample, epoch,
-                   live, snap, lastRun, ran, running, tainted, stats>>
+                   rdrVars, runVars, kfVars, stats>>
 
 Commit(idx) ==
     /\ inputs' = [n \in Ids |-> IF pend[n] # None THEN pend[n] ELSE inputs[n]]
@@ -139,37 +246,50 @@ Commit(idx) ==
     /\ refreshing' = FALSE
     /\ epoch' = epoch + 1
     /\ ran' = {}
+    /\ kfTaint' = [n \in Ids |-> ""]
     /\ viol' = IF ~insess THEN Append(viol, V(idx, "commit_outside_session", 0, 0, 0)) ELSE viol
     /\ stats' = Bump("commits")
-    /\ UNCHANGED <<prog, world, live, snap, lastRun, running, tainted>>
+    /\ spSeen' = StaleProj({}, lastRun, outLast, bpSkip)
+    /\ kfFw' = {}
+    /\ UNCHANGED <<prog, world, rdrVars, lastRun, running, tainted, outLast, outPrev,
+                   nested, topDone, bpSkip, kfHard>>
 
 Tracked(idx, t) ==
     /\ live' = live \cup {t}
     /\ snap' = [snap EXCEPT ![t] = inputs]
     /\ viol' = IF insess THEN Append(viol, V(idx, "reader_during_session", t, 0, 0)) ELSE viol
-    /\ UNCHANGED <<prog, inputs, pend, insess, refreshing, world, sample,
-                   pendSample, epoch, lastRun, ran, running, tainted, stats>>
+    /\ UNCHANGED <<prog, sessVars, world, runVars, kfVars, stats>>
 
 DropTracked(idx, t) ==
     /\ live' = live \ {t}
-    /\ UNCHANGED <<prog, inputs, pend, insess, refreshing, world, sample,
-                   pendSample, epoch, snap, lastRun, ran, running, tainted, viol, stats>>
+    /\ UNCHANGED <<prog, sessVars, world, snap, runVars, kfVars, viol, stats>>
 
 (* C01/C04: a value handed to the user equals the from-scratch value under *)
 (* the inputs committed when the reader's tracked engine was handed out.   *)
 Query(idx, t, n, v) ==
-    /\ LET want == ValAt(t)[n] IN
-       viol' = IF v # want THEN Append(viol, V(idx, "query_value", n, v, want)) ELSE viol
+    /\ LET want == ValAt(t)[n]
+           label == IF v # want THEN KfOfUser(n) ELSE ""
+       IN /\ viol' = IF v # want
+                     THEN Append(viol, VK(idx, "query_value", n, v, want, label))
+                     ELSE viol
+          \* n stays verified with this value for the rest of the epoch
+          /\ kfTaint' = IF label # "" /\ kfTaint[n] = ""
+                        THEN [kfTaint EXCEPT ![n] = label] ELSE kfTaint
     /\ stats' = Bump("queries")
-    /\ UNCHANGED <<prog, inputs, pend, insess, refreshing, world, sample,
-                   pendSample, epoch, live, snap, lastRun, ran, running, tainted>>
+    \* a firewall/projection whose changing run was the user's own direct
+    \* query gets no backward projection propagation (KF_PBP call site)
+    /\ bpSkip' = IF n \in topDone THEN bpSkip \cup {n} ELSE bpSkip
+    /\ topDone' = {}
+    /\ spSeen' = spSeen \cup StaleProj(ran, lastRun, outLast, bpSkip')
+    /\ UNCHANGED <<prog, sessVars, world, rdrVars, runVars, nested, kfFw, kfHard>>
 
 (* C02: one query key is never executed by two executors at once.          *)
 Enter(idx, n) ==
     /\ running' = running \cup {n}
     /\ viol' = IF n \in running THEN Append(viol, V(idx, "overlap", n, 0, 0)) ELSE viol
-    /\ UNCHANGED <<prog, inputs, pend, insess, refreshing, world, sample,
-                   pendSample, epoch, live, snap, lastRun, ran, stats, tainted>>
+    /\ nested' = IF running # {} THEN nested \cup {n} ELSE nested \ {n}
+    /\ UNCHANGED <<prog, sessVars, world, rdrVars, lastRun, ran, tainted,
+                   outLast, outPrev, kfTaint, topDone, bpSkip, spSeen, kfFw, kfHard, stats>>
 
 ReadsOf(n) == lastRun[n].reads
 
@@ -183,26 +303,52 @@ Justified(n, val) ==
 BadReads(reads, val) ==
     {i \in 1..Len(reads) : val[reads[i][1]] # reads[i][2]}
 
+(* C01: a dependency read hands the executor the from-scratch value.  The  *)
+(* check is made the moment the value is handed over.                      *)
+Read(idx, n, d, v) ==
+    LET val == ValNow
+        bad == v # val[d]
+        label == IF bad THEN KfOf(d, val) ELSE ""
+    IN  /\ viol' = IF bad THEN Append(viol, VK(idx, "read_value", d, v, val[d], label)) ELSE viol
+        /\ kfTaint' = IF bad /\ label # ""
+                      THEN [x \in Ids |-> IF x \in {n, d} /\ kfTaint[x] = "" THEN label ELSE kfTaint[x]]
+                      ELSE kfTaint
+        /\ kfFw' = IF bad /\ KfTfc(d, val)
+                    THEN kfFw \cup (TransDeps(d) \cap PendingFirewalls(val)) ELSE kfFw
+        /\ stats' = Bump("reads")
+        /\ UNCHANGED <<prog, sessVars, world, rdrVars, runVars, nested, topDone, bpSkip, spSeen, kfHard>>
+
 (* A complete executor run of a non-external node.                         *)
 ExecNormal(idx, n, reads, out) ==
     LET val == ValNow
-        bad == BadReads(reads, val)
-        v1  == IF bad # {}
-               THEN LET i == CHOOSE i \in bad : \A j \in bad : i <= j
-                    IN  Append(viol, V(idx, "read_value", reads[i][1], reads[i][2], val[reads[i][1]]))
+        changed == lastRun[n].has /\ outLast[n] # out
+        isFw == prog.nodes[n].kind \in {"Fw", "Pj"}
+        v2  == IF ~Justified(n, val)
+               THEN Append(viol, VK(idx, "unjustified_exec", n, 0, 0,
+                                  IF KfBp(n) THEN "KF_BP"
+                                  ELSE kfTaint[n]))  \* re-run caused by a stale read
                ELSE viol
-        v2  == IF ~Justified(n, val) THEN Append(v1, V(idx, "unjustified_exec", n, 0, 0)) ELSE v1
         v3  == IF n \in ran THEN Append(v2, V(idx, "double_exec", n, 0, 0)) ELSE v2
         v4  == IF insess THEN Append(v3, V(idx, "exec_during_session", n, 0, 0)) ELSE v3
-    IN  /\ viol' = v4
+        v5  == IF BadReads(reads, val) = {} /\ out # Eval(prog, n, val).out
+               THEN Append(v4, V(idx, "harness_executor_output", n, out, Eval(prog, n, val).out)) ELSE v4
+    IN  /\ viol' = v5
         /\ lastRun' = [lastRun EXCEPT ![n] = [has |-> TRUE, reads |-> reads]]
         /\ ran' = ran \cup {n}
         /\ running' = running \ {n}
         /\ tainted' = tainted \ {n}
-        /\ stats' = [stats EXCEPT !.execs = @ + 1, !.reads = @ + Len(reads),
+        /\ outPrev' = [outPrev EXCEPT ![n] = outLast[n]]
+        /\ outLast' = [outLast EXCEPT ![n] = out]
+        /\ bpSkip' = IF isFw /\ changed
+                     THEN (IF n \in nested THEN bpSkip \cup {n} ELSE bpSkip \ {n})
+                     ELSE bpSkip
+        /\ topDone' = IF isFw /\ changed /\ n \notin nested THEN topDone \cup {n} ELSE topDone
+        /\ spSeen' = spSeen \cup StaleProj(ran', lastRun', outLast', bpSkip')
+        /\ stats' = [stats EXCEPT !.execs = @ + 1,
                                   !.justified = @ + (IF lastRun[n].has THEN 1 ELSE 0)]
-        /\ UNCHANGED <<prog, inputs, pend, insess, refreshing, world, sample,
-                       pendSample, epoch, live, snap>>
+        \* the run consumed a stale value (marked by Read) or not
+        /\ kfHard' = [kfHard EXCEPT ![n] = IF BadReads(reads, val) # {} THEN kfTaint[n] ELSE ""]
+        /\ UNCHANGED <<prog, sessVars, world, rdrVars, kfTaint, nested, kfFw>>
 
 (* C03: an external-input executor runs only on first demand or refresh.   *)
 ExecExternal(idx, n, out) ==
@@ -221,8 +367,8 @@ ExecExternal(idx, n, out) ==
                        ELSE viol
     /\ running' = running \ {n}
     /\ stats' = Bump("execs")
-    /\ UNCHANGED <<prog, inputs, pend, insess, refreshing, world, epoch, live,
-                   snap, lastRun, ran, tainted>>
+    /\ UNCHANGED <<prog, inputs, pend, insess, refreshing, world, epoch, rdrVars,
+                   lastRun, ran, tainted, outLast, outPrev, kfVars>>
 
 (* A run that was unwound (cycle payload, panic) or cancelled: it leaves   *)
 (* no read-set behind, and the next run needs no justification.            *)
@@ -231,8 +377,7 @@ ExecCut(idx, n) ==
     /\ tainted' = tainted \cup {n}
     /\ lastRun' = [lastRun EXCEPT ![n] = [has |-> FALSE, reads |-> <<>>]]
     /\ stats' = Bump("cyc")
-    /\ UNCHANGED <<prog, inputs, pend, insess, refreshing, world, sample,
-                   pendSample, epoch, live, snap, ran, viol>>
+    /\ UNCHANGED <<prog, sessVars, world, rdrVars, ran, outLast, outPrev, kfVars, viol>>
 
 (* C07: a clean restart changes nothing observable.                        *)
 Restart(idx) ==
@@ -240,6 +385,6 @@ Restart(idx) ==
     /\ running' = {}
     /\ viol' = IF insess THEN Append(viol, V(idx, "restart_in_session", 0, 0, 0)) ELSE viol
     /\ stats' = Bump("restarts")
-    /\ UNCHANGED <<prog, inputs, pend, insess, refreshing, world, sample,
-                   pendSample, epoch, snap, lastRun, ran, tainted>>
+    /\ UNCHANGED <<prog, sessVars, world, snap, lastRun, ran, tainted, outLast,
+                   outPrev, kfVars>>
 =============================================================================
